@@ -1237,6 +1237,19 @@ class Emitter:
             h = self.spec.get('call_handlers', {}).get(key)
             if h:
                 return h(self, n, args, stmt)
+            if nm in ('operator=', 'operator+=', 'operator-=', 'operator++', 'operator--', 'operator|=', 'operator&=') and not (self.calls.get(key + '|' + sig) or self.calls.get(key)):
+                # operators of a class the spec maps to a plain scalar (atomics as plain variables): the C operator on the object itself
+                try:
+                    scalar = self.base_ctype(cls) in BUILTIN
+                except Unsupported:
+                    scalar = False
+                if scalar:
+                    self.rules['scalar_wrapper_operator'] += 1
+                    op = nm[len('operator'):]
+                    lhs = self.expr(args[0])
+                    if op in ('++', '--'):
+                        return '(%s%s)' % (lhs, op) if len(args) > 1 else '(%s%s)' % (op, lhs)     # postfix forms carry a dummy int argument
+                    return '(%s %s %s)' % (lhs, op, self.expr(args[1]))
             if nm == 'operator=' and any(re.fullmatch(rx, cls) for rx in self.spec.get('pod', [])) and len(args) == 2 \
                     and self.class_of(args[1]['type']) == cls and not (self.calls.get(key + '|' + sig) or self.calls.get(key)):
                 # copy assignment of a class the spec declares plain data: memberwise = struct assignment
